@@ -50,6 +50,8 @@ def run_case(case):
     except ser.Unsupported as e:
         out["out"] = {"err": "unsupported-node", "msg": str(e)}
         return out
+    except CaseTimeout:
+        raise
     except Exception as e:  # noqa
         out["out"] = {"err": type(e).__name__, "msg": str(e)[:200]}
         return out
@@ -104,6 +106,8 @@ def run_mixed(case, env):
                 blk["out"] = {"err": "not-implemented", "arg": None}
         except ser.Unsupported as e:
             blk["out"] = {"err": "unsupported-node", "msg": str(e)}
+        except CaseTimeout:
+            raise
         except Exception as e:  # noqa
             blk["out"] = {"err": type(e).__name__, "msg": str(e)[:200]}
         if "err" in blk["out"]:
@@ -157,6 +161,8 @@ def run_tensor(case, env):
     except ser.Unsupported as e:
         out["out"] = {"err": "unsupported-node", "msg": str(e)}
         return out
+    except CaseTimeout:
+        raise
     except Exception as e:  # noqa
         out["out"] = {"err": type(e).__name__, "msg": str(e)[:200]}
         return out
